@@ -345,6 +345,17 @@ pub fn import_stmt(r: &mut Rng, allow_comments: bool, allow_dups: bool) -> Strin
     let mut items: Vec<String> = vec![];
     for k in 0..n {
         let base = if allow_dups && k > 0 && r.chance(1, 6) { names[0] } else { names[k % names.len()] };
+        if allow_dups && k > 0 && r.chance(1, 5) {
+            // two items binding the same name through different nested paths / a path and a plain item
+            let h = names[1];
+            items.push(match r.below(3) {
+                0 => format!("{}.{}", names[(k + 2) % names.len()], h),
+                1 => h.to_string(),
+                _ => format!("{}.inner.{}", names[(k + 4) % names.len()], h),
+            });
+            items.push(format!("{}.{}", base, h));
+            continue;
+        }
         let item = match r.below(6) {
             0 => format!("{} as {}", base, names[(k + 5) % names.len()]),
             1 => format!("{}.{}", base, names[(k + 3) % names.len()]),
@@ -471,7 +482,7 @@ pub fn gen_table(i: u64) -> Option<String> {
 // ------------------------------------------------------------------------------------------------
 // nesting families
 
-pub const NEST_FAMILIES: usize = 20;
+pub const NEST_FAMILIES: usize = 24;
 
 /// Wrap `inner` with wrapper `w`. Code-level wrappers take/return a code expression.
 pub fn wrap(w: usize, inner: &str) -> String {
@@ -495,7 +506,12 @@ pub fn wrap(w: usize, inner: &str) -> String {
         16 => format!("$x_({})$", hash_in_math(inner)),
         17 => format!("[- #{}]", paren_if_needed(inner)),
         18 => format!("[*#{}*]", paren_if_needed(inner)),
-        _ => format!("{{ show: it => {}; it }}", inner),
+        19 => format!("{{ show: it => {}; it }}", inner),
+        // the compact `ident.field.field(args)` chain, nested in its own argument list (short and long identifiers)
+        20 => format!("a.b.c({})", inner),
+        21 => format!("configuration_registry.default_settings.with_overrides({})", inner),
+        22 => format!("a.b.c(k: {})", inner),
+        _ => format!("f(x => a.b.c({}))", inner),
     }
 }
 
